@@ -1,7 +1,7 @@
 (* C02 — H1 cases (one real Consensus, fault-injecting datastore): replay of the observed trace on the model
    (code 1 = the model cannot explain / does not predict the observation) and the boolean form of the property
    evaluated on the observation alone (codes 10..16). Evaluated with vm_compute. *)
-From V Require Import Base.Common Model.C02_Batch Model.C02_Set.
+From V Require Import Base.Common Model.C02_Batch Model.C02_BatchTime Model.C02_Set.
 Open Scope N_scope.
 
 Definition item := (N * wop)%type.
@@ -16,50 +16,69 @@ Inductive tev :=
 
 (* batching? queue capacity, max batch size; trace; State().List() at the end; calls seen by the PinTracker RPC service *)
 (* h_nofire: MaxBatchAge is an hour or more, the timer cannot expire while the case runs *)
-Record h1 := mk_h1 { h_batching : bool; h_nofire : bool; h_qcap : N; h_size : N; h_trace : list tev;
+(* every trace event carries the harness clock (microseconds since the case started) at which it was recorded.
+   h_age: MaxBatchAge in microseconds. h_slack > 0 (trickle cases): the wall-clock clause is checked, an age-limit commit
+   may be late by at most h_slack. h_lat: for every operation of a trickle case, when LogPin/LogUnpin returned nil and
+   when its effect was first seen in State() (a very large number when it never was). *)
+Record h1 := mk_h1 { h_batching : bool; h_nofire : bool; h_qcap : N; h_size : N; h_age : N; h_slack : N;
+                     h_trace : list (N * tev); h_lat : list (N * N);
                      h_final : list (key * val); h_calls : list tcall }.
 
-(* ------------------------------------------------------------------ replay on the model *)
-Record rst := mk_rst { r_b : bst item; r_l : lrep; r_calls : list tcall; r_bad : bool }.
+(* ------------------------------------------------------------------ replay on the (timed) model *)
+Record rst := mk_rst { r_b : tbst item; r_l : lrep; r_calls : list tcall; r_bad : bool }.
 
 Definition hd_id (q : list item) : option N := match q with (i, _) :: _ => Some i | [] => None end.
 Definition hd_op (q : list item) : option wop := match q with (_, o) :: _ => Some o | [] => None end.
 
-Definition replay_step (c : bcfg) (nofire : bool) (s : rst) (e : tev) : rst :=
-  let b := r_b s in
+(* let the model clock catch up with the harness clock (never backwards) *)
+Definition tick_to (c : tcfg) (at_ : N) (b : tbst item) : tbst item := tstep c b (Tick (at_ - now (ti b))).
+
+Definition replay_step (c : tcfg) (nofire : bool) (slack : N) (s : rst) (te : N * tev) : rst :=
+  let '(at_, e) := te in
+  let tb := tick_to c at_ (r_b s) in
+  let b := core tb in
+  (* the age timer of a non-empty batch expired more than `slack` ago and no commit was attempted: not a timely schedule
+     of the model (which arms the timer for the first operation of a batch only) *)
+  let overdue := (0 <? slack) && t_active (tm b) && (0 <? cur b) && (twhen (ti tb) + slack <? at_) in
   match e with
   | TEnq id o ok =>
-      let room := N.of_nat (length (queue b)) <? qcap c in
-      mk_rst (bstep c b (Enq (id, o))) (r_l s) (r_calls s) (r_bad s || negb (Bool.eqb room ok))
+      let room := N.of_nat (length (queue b)) <? qcap (tc c) in
+      mk_rst (tstep c tb (Ev (Enq (id, o)))) (r_l s) (r_calls s) (r_bad s || negb (Bool.eqb room ok))
   | TAdd id ok =>
       match pc b, blocked b, queue b with
       | PIdle, false, (i, o) :: _ =>
-          mk_rst (bstep c b (Take ok)) (if ok then batch_op (r_l s) o else r_l s) (r_calls s) (r_bad s || negb (i =? id))
-      | _, _, _ => mk_rst b (r_l s) (r_calls s) true
+          mk_rst (tstep c tb (Ev (Take ok))) (if ok then batch_op (r_l s) o else r_l s) (r_calls s) (r_bad s || negb (i =? id) || overdue)
+      | _, _, _ => mk_rst tb (r_l s) (r_calls s) true
       end
   | TCommit p =>
-      if blocked b then mk_rst b (r_l s) (r_calls s) true else
+      if blocked b then mk_rst tb (r_l s) (r_calls s) true else
       let okp := pres_possible (r_l s) (cur_dc (r_l s)) p in
       let '(l', hs) := batch_commit (r_l s) p in
       let calls := r_calls s ++ map tracker_call hs in
       match pc b with
-      | PCommit => mk_rst (bstep c b (SizeCommit (pres_ok p))) l' calls (r_bad s || negb okp)
+      | PCommit => mk_rst (tstep c tb (Ev (SizeCommit (pres_ok p)))) l' calls (r_bad s || negb okp)
       | PIdle =>
-          if t_chan (tm b) then mk_rst (bstep c b (OnTimer (pres_ok p))) l' calls (r_bad s || negb okp)
-          else if t_active (tm b) && negb nofire then mk_rst (bstep c (bstep c b Fire) (OnTimer (pres_ok p))) l' calls (r_bad s || negb okp)
-          else mk_rst b (r_l s) (r_calls s) true      (* a commit from the timer branch of a timer that cannot fire *)
+          if t_chan (tm b) then mk_rst (tstep c tb (Ev (OnTimer (pres_ok p)))) l' calls (r_bad s || negb okp)
+          else if t_active (tm b) && negb nofire then
+            (* the timer expired in between: not before its expiry (half of max_age is allowed for the distance between
+               the Reset and the instant the harness saw the item), then the worker read the channel *)
+            let early := (0 <? slack) && (at_ + maxage c / 2 <? twhen (ti tb)) in
+            let tb1 := tick_to c (twhen (ti tb)) tb in
+            mk_rst (tstep c (tstep c tb1 (Ev Fire)) (Ev (OnTimer (pres_ok p)))) l' calls (r_bad s || negb okp || early || overdue)
+          else mk_rst tb (r_l s) (r_calls s) true      (* a commit from the timer branch of a timer that cannot fire *)
       end
   | TDirect id o p ok =>
       let '(l', hs, okm) := direct_op (r_l s) o p in
-      mk_rst b l' (r_calls s ++ map tracker_call hs)
+      mk_rst tb l' (r_calls s ++ map tracker_call hs)
              (r_bad s || negb (Bool.eqb ok okm) || negb (pres_possible (r_l s) (delta_add_op (l_st (r_l s)) ([], []) o) p))
   | TNoAge =>
-      mk_rst b (r_l s) (r_calls s)
+      mk_rst tb (r_l s) (r_calls s)
              (r_bad s || (negb (blocked b) && negb nofire && (t_active (tm b) || t_chan (tm b) || match pc b with PCommit => true | PIdle => false end)))
-  | TStuck => mk_rst b (r_l s) (r_calls s) (r_bad s || negb (blocked b))
+  | TStuck => mk_rst tb (r_l s) (r_calls s) (r_bad s || negb (blocked b))
   end.
 
-Definition replay (c : bcfg) (nofire : bool) (t : list tev) : rst := fold_left (replay_step c nofire) t (mk_rst binit linit [] false).
+Definition replay (c : tcfg) (nofire : bool) (slack : N) (t : list (N * tev)) : rst :=
+  fold_left (replay_step c nofire slack) t (mk_rst tinit linit [] false).
 
 Fixpoint insert_kv (x : key * val) (l : list (key * val)) : list (key * val) :=
   match l with [] => [x] | y :: r => if fst x <=? fst y then x :: l else y :: insert_kv x r end.
@@ -70,14 +89,16 @@ Definition tcall_eqb (a b : tcall) : bool :=
   | Track k v, Track k' v' => (k =? k') && (v =? v')
   | Untrack k, Untrack k' => k =? k'
   | _, _ => false end.
-Definition has_stuck (t : list tev) : bool := existsb (fun e => match e with TStuck => true | _ => false end) t.
+Definition has_stuck (t : list (N * tev)) : bool := existsb (fun e => match snd e with TStuck => true | _ => false end) t.
+
+Definition h1_cfg (fixed : bool) (h : h1) : tcfg := mk_tcfg (mk_bcfg (h_qcap h) (h_size h) fixed) (h_age h) false.
 
 Definition model_eqb (fixed : bool) (h : h1) : bool :=
-  let c := mk_bcfg (h_qcap h) (h_size h) fixed in
-  let s := replay c (h_nofire h) (h_trace h) in
+  let s := replay (h1_cfg fixed h) (h_nofire h) (h_slack h) (h_trace h) in
+  let b := core (r_b s) in
   negb (r_bad s)
-  && match pc (r_b s) with PIdle => true | PCommit => false end                      (* no commit left unobserved *)
-  && (blocked (r_b s) || has_stuck (h_trace h) || match queue (r_b s) with [] => true | _ => false end)
+  && match pc b with PIdle => true | PCommit => false end                      (* no commit left unobserved *)
+  && (blocked b || has_stuck (h_trace h) || match queue b with [] => true | _ => false end)
   && list_eqb kv_eqb (sort_kv (pinset (l_st (r_l s)))) (sort_kv (h_final h))
   && list_eqb tcall_eqb (r_calls s) (h_calls h).
 
@@ -127,7 +148,7 @@ Definition acc_step (qcap maxsize : N) (a : acc) (e : tev) : acc :=
   end.
 
 Definition account (h : h1) : acc :=
-  fold_left (acc_step (h_qcap h) (h_size h)) (h_trace h) (mk_acc [] [] 0 false [] [] [] false false false false false).
+  fold_left (acc_step (h_qcap h) (h_size h)) (map snd (h_trace h)) (mk_acc [] [] 0 false [] [] [] false false false false false).
 
 (* last-writer-wins map of a sequence of operations *)
 Definition apply_op (m : list (key * val)) (o : wop) : list (key * val) :=
@@ -161,7 +182,7 @@ Definition rp_step (ops : list (N * wop)) (a : rp) (e : tev) : rp :=
   | _ => a
   end.
 Definition republish_keys (h : h1) : list key :=
-  rp_keys (fold_left (rp_step (trace_ops (h_trace h))) (h_trace h) (mk_rp [] false [])).
+  rp_keys (fold_left (rp_step (trace_ops (map snd (h_trace h)))) (map snd (h_trace h)) (mk_rp [] false [])).
 
 (* keys of a committed batch whose change has no tracker call *)
 Fixpoint hooks_uncovered (calls : list tcall) (undet : list key) (m : list (key * val)) (bs : list (list wop)) : list key :=
@@ -181,6 +202,14 @@ Fixpoint hooks_uncovered (calls : list tcall) (undet : list key) (m : list (key 
 
 Definition tag_for (h : h1) (bad : list key) : N := if subsetb bad (republish_keys h) then 2 else 0.
 
+(* the wall-clock clause on the observation alone: every accepted operation of a trickle case is in effect no later than
+   max_age + slack after LogPin/LogUnpin returned *)
+(* an operation whose effect never showed (the harness writes 2^50) is not judged here: either it was never committed
+   (TNoAge / TStuck: codes 13, 14) or it was and the final pinset lacks its effect (code 15) *)
+Definition never_seen : N := 1125899906842624.
+Definition late_ops (h : h1) : list (N * N) :=
+  if 0 <? h_slack h then filter (fun av => (snd av <? never_seen) && (fst av + h_age h + h_slack h <? snd av)) (h_lat h) else [].
+
 Definition spec_codes (h : h1) : list (N * N) :=
   let a := account h in
   let undet := a_undet a ++ map op_key (a_pend a) in
@@ -192,7 +221,7 @@ Definition spec_codes (h : h1) : list (N * N) :=
   (if e_order a || (negb (e_stuck a) && match a_wait a with [] => false | _ => true end) then [(10, 0)] else []) ++
   (if e_refuse a then [(11, 0)] else []) ++
   (if e_size a || a_expect a then [(12, 0)] else []) ++
-  (if e_age a then [(13, 0)] else []) ++
+  (if e_age a || match late_ops h with [] => false | _ => true end then [(13, 0)] else []) ++
   (if e_stuck a then [(14, 0)] else []) ++
   (match bad15 with [] => [] | _ => [(15, tag_for h bad15)] end) ++
   (match bad16 with [] => [] | _ => [(16, tag_for h bad16)] end).
